@@ -58,7 +58,7 @@ def main():
             assert rc == 0, "does not build: " + out
             meta["ran"].append("git apply patch.diff && go build ./... : ok")
             pkgdir = {"tchannel": ".", "tchannel_test": ".", "thrift": "thrift", "thrift_test": "thrift", "json": "json", "json_test": "json",
-                      "http": "http", "http_test": "http", "typed": "typed", "typed_test": "typed", "argreader": "internal/argreader", "relay": "relay", "relay_test": "relay"}
+                      "http": "http", "http_test": "http", "typed": "typed", "typed_test": "typed", "argreader": "internal/argreader", "relay": "relay", "relay_test": "relay", "arg2": "thrift/arg2", "arg2_test": "thrift/arg2"}
             bydir = {}
             for d in demos:
                 m = re.search(r"^package (\w+)", open(d).read(), re.M)
